@@ -319,12 +319,14 @@ impl Client {
                 self.counts();
                 self.done = true;
                 self.dfw.live.store(false, Ordering::SeqCst);
+                self.dispatch = None; // an executor drops a completed future
             }
             Ok(Poll::Ready(Err(e))) => {
                 log(format!("ret {name} err({})", activity(&e)));
                 self.counts();
                 self.done = true;
                 self.dfw.live.store(false, Ordering::SeqCst);
+                self.dispatch = None; // an executor drops a completed future
             }
         }
     }
